@@ -36,7 +36,14 @@
                                            expand: the returned locations are the codons of the CDS lying inside the
                                            window — multi-exon CDS (every frame vector) and
         window_codons_single_exon_frame0   single-exon CDS with start frame 0 (frame ≠ 0: F-C05a);
+        window_codons_single_exon          single-exon CDS, ANY start frame, on the complement of F-C05a
+                                           (`frame + ((−d) mod 3) < 3`, d = exon positions cut at the 5' end)
+        window_codons_with_expand          `expand_window_to_partial_codons=True` on a CDS read in one frame 0 whose
+                                           expansion stays inside the complete codons (complement: F-C05f / F-C05g)
+        window_none_start / _end / _both   a `None` bound is `cds_starts[0]` / `cds_ends[-1]`; both `None` = no window
         window_offset_arithmetic           the arithmetic core (offset (−d) mod 3 ⇒ exactly the inner codons)
+    T6  codonless_cds_answers, codonless_cds_has_no_codons   every answer on a CDS without a complete codon
+    T7  chunk_model_*                      the C07 chunk model delegates to these functions (no second copy can drift)
 
     T2b coding_sequence_is_codon_concatenation   `okCdsSeq`: extract_sequence() of the CDS = concatenation of the
                                            letters of the reference codons (complemented on the minus strand)
@@ -47,12 +54,15 @@
         valid_stop_reads_last_codon              `okHasValidStop`
         in_frame_stop_reads_inner_codons         `okInFrameStop`
 
-  Resting on the correspondence run (stated, not proved — see the comments at the end): windows with
-  `expand_window_to_partial_codons` and with a `None` bound.
+  Resting on the correspondence run only: nothing of the property's clauses inside the stated domains; outside
+  them the pinned code deviates (findings F-C05a..h, witnesses at the end).
 -/
 import BioCantor.Proofs.CDSPredicates
 import BioCantor.Proofs.CDSDeepTrim
 import BioCantor.Proofs.CDSWindowCodons
+import BioCantor.Proofs.CDSExpand
+import BioCantor.Proofs.CDSCorners
+import BioCantor.Proofs.CDSChunkTie
 import BioCantor.Proofs.CDSConstructFrames
 import BioCantor.Proofs.CDSTranslate
 import BioCantor.Proofs.CDSFastPath
@@ -241,12 +251,119 @@ theorem window_codons_single_exon_frame0 (c : CDS) (h : WFCDS c) (e : Blk) (hone
       (ans (scanChromosomeCodonLocations c (some ⟨some (lo : Int), some (hi : Int), false⟩))) = true :=
   windowCodons_single c h e hone hf lo hi hw hseq hsome
 
+/-- **T5** codon windows, single-exon CDS with ANY start frame, on the complement of F-C05a.  With `d` = the
+    number of exon positions before the window on the 5' side, the pinned code adds `frame + ((−d) mod 3)` without
+    reducing modulo three; the answer is right exactly when that sum stays below three — in particular for every
+    window that does not cut the 5' end (`d = 0`) and for every window when `frame = 0`. -/
+theorem window_codons_single_exon (c : CDS) (h : WFCDS c) (e : Blk) (hone : c.loc.blocks = [e])
+    (f : CDSFrame) (hf : c.frames = [f]) (lo hi : Nat) (hw : lo < hi) (hseq : ∀ s, c.seq = some s → hi ≤ s.length)
+    (hsome : (bases c.loc).filter (inW lo hi) ≠ [])
+    (hguard : f.value.toNat + (3 - ((bases c.loc).filter (beforeW c.loc.strand lo hi)).length % 3) % 3 < 3) :
+    okCodons (specOf c) (some ⟨some (lo : Int), some (hi : Int), false⟩)
+      (ans (scanChromosomeCodonLocations c (some ⟨some (lo : Int), some (hi : Int), false⟩))) = true :=
+  windowCodons_single_any c h e hone f hf lo hi hw hseq hsome hguard
+
+/-- **T5** `expand_window_to_partial_codons=True`.  Domain (the complement of F-C05g and F-C05f): the CDS is read
+    in one uninterrupted frame 0 (`cdsKept = bases`: start frame 0, no re-synchronisation), and rounding the window's
+    CDS stretch `[d, d+m)` up to `3⌈(d+m)/3⌉` stays inside the CDS.  `hstart`/`hend`: the exons were given in order
+    (`self.start = cds_starts[0]` is the smallest start).  Then the answer is every codon with at least one position
+    inside `[lo, hi)`. -/
+theorem window_codons_with_expand (c : CDS) (h : WFCDS c)
+    (hstart : c.start = locStartMin c.loc) (hend : c.«end» = locEndMax c.loc.blocks)
+    (hplain : cdsKept c.loc (specFrames c) = bases c.loc)
+    (hshallow : shallowTrim (exonWalk c.loc (specFrames c)) = true)
+    (hcase : c.loc.blocks.length > 1 ∨ ∃ e, c.loc.blocks = [e] ∧ c.frames = [.ZERO])
+    (lo hi : Nat) (hw : lo < hi)
+    (hseq : ∀ s, c.seq = some s → hi ≤ s.length ∧ locEndMax c.loc.blocks ≤ s.length)
+    (hsome : (bases c.loc).filter (inW lo hi) ≠ [])
+    (htail : 3 * ((((bases c.loc).filter (beforeW c.loc.strand lo hi)).length +
+        ((bases c.loc).filter (inW lo hi)).length + 2) / 3) ≤ (bases c.loc).length) :
+    okCodons (specOf c) (some ⟨some (lo : Int), some (hi : Int), true⟩)
+      (ans (scanChromosomeCodonLocations c (some ⟨some (lo : Int), some (hi : Int), true⟩))) = true :=
+  expandWindowCodons c h hstart hend hplain hshallow hcase lo hi hw hseq hsome htail
+
+/-- **T5** `chromosome_start=None` means `self.start`: model and clause agree on it, so every window theorem
+    above transfers (`lo := c.start`). -/
+theorem window_none_start (c : CDS) (hstart : c.start = locStartMin c.loc) (hi : Int) (x : Bool) :
+    scanChromosomeCodonLocations c (some ⟨none, some hi, x⟩) =
+        scanChromosomeCodonLocations c (some ⟨some (c.start : Int), some hi, x⟩) ∧
+      ∀ a, okCodons (specOf c) (some ⟨none, some hi, x⟩) a =
+        okCodons (specOf c) (some ⟨some (c.start : Int), some hi, x⟩) a :=
+  ⟨scan_none_start c hi x, okCodons_none_start c hstart hi x⟩
+
+/-- **T5** `chromosome_end=None` means `self.end`. -/
+theorem window_none_end (c : CDS) (hend : c.«end» = locEndMax c.loc.blocks) (lo : Int) (x : Bool) :
+    scanChromosomeCodonLocations c (some ⟨some lo, none, x⟩) =
+        scanChromosomeCodonLocations c (some ⟨some lo, some (c.«end» : Int), x⟩) ∧
+      ∀ a, okCodons (specOf c) (some ⟨some lo, none, x⟩) a =
+        okCodons (specOf c) (some ⟨some lo, some (c.«end» : Int), x⟩) a :=
+  ⟨scan_none_end c lo x, okCodons_none_end c hend lo x⟩
+
+/-- **T5** both bounds `None`: no window (T2 applies). -/
+theorem window_none_both (c : CDS) (x : Bool) :
+    scanChromosomeCodonLocations c (some ⟨none, none, x⟩) = codonLocations c :=
+  scan_none_both c x
+
 /-- **T5 (arithmetic core)** `d` retained bases lie before the window, `m` inside it; iterating triples from offset
     `(−d) mod 3` (`offset_after_cut`) over the window's stretch yields exactly the codons inside the window. -/
 theorem window_offset_arithmetic (kept : List Nat) (d m : Nat) :
     triples (((kept.drop d).take m).drop ((3 - d % 3) % 3)) =
       ((triples kept).drop ((d + 2) / 3)).take ((d + m) / 3 - (d + 2) / 3) :=
   window_triples kept d m
+
+/-- **T6** a CDS without a complete codon (fewer than three kept positions): no codons, empty protein, no start codon
+    (repaired F-C19e: `false`, not StopIteration), no in-frame stop; `has_valid_stop` is the one predicate that still
+    refuses (`Codon("")` raises ValueError), which `okHasValidStop` accepts. -/
+theorem codonless_cds_answers (c : CDS) (h : WFCDS c)
+    (hshallow : shallowTrim (exonWalk c.loc (specFrames c)) = true)
+    (hkept : c.loc.blocks.length = 1 ∨ cdsKept c.loc (specFrames c) ≠ [])
+    (chrom : List Char) (hs : SeqOK c chrom) (hless : (cdsKept c.loc (specFrames c)).length < 3)
+    (trunc strict : Bool) (table : Int) :
+    extractSequence c = .ok [] ∧
+    scanCodons c trunc = .ok [] ∧
+    translate c trunc table strict = .ok [] ∧
+    hasCanonicalStartCodon c = .ok false ∧
+    hasStartCodonIn c table = .ok false ∧
+    hasInFrameStop c = .ok false ∧
+    ans (hasValidStop c) = none :=
+  ⟨codonless_sequence c h hshallow hkept chrom hs hless,
+   codonless_answers c h hshallow hkept chrom hs hless trunc strict table⟩
+
+/-- **T6** … and `num_codons = 0`. -/
+theorem codonless_cds_has_no_codons (c : CDS) (h : WFCDS c)
+    (hshallow : shallowTrim (exonWalk c.loc (specFrames c)) = true)
+    (hkept : c.loc.blocks.length = 1 ∨ cdsKept c.loc (specFrames c) ≠ [])
+    (hless : (cdsKept c.loc (specFrames c)).length < 3) :
+    numCodons c = .ok 0 :=
+  codonless_numCodons c h hshallow hkept hless
+
+/-- **T7** the chunk model of C07 (`Model/Chunk.lean`) does not re-model the chromosome-level machinery: the
+    chromosome-level answers of a chunk-built CDS are these functions on `k.base`, definitionally. -/
+theorem chunk_model_chromosome_answers (k : Model.Chunk.ChunkCDS) :
+    Model.Chunk.chromosomeCodonLocations k = codonLocations k.base ∧
+      Model.Chunk.numCodonsChunk k = numCodons k.base :=
+  ⟨chunk_chromosome_codons_delegate k, chunk_numCodons_delegate k⟩
+
+/-- **T7** a chunk-built CDS without a base in the chunk (`_location` is the EmptyLocation, so it is not
+    chunk-relative) answers every chunk-relative question through the functions of this file. -/
+theorem chunk_model_off_chunk (k : Model.Chunk.ChunkCDS) (h : k.location = .empty) (lo hi : Int) :
+    Model.Chunk.chunkRelativeCodonLocations k = codonLocations k.base ∧
+      Model.Chunk.scanChunkRelativeCodonLocations k lo hi =
+        scanChromosomeCodonLocations k.base (some ⟨some lo, some hi, false⟩) :=
+  ⟨chunk_codons_off_chunk k h, chunk_window_codons_off_chunk k h lo hi⟩
+
+/-- **T7** the one stretch of control flow that `Model/Chunk.lean` repeats (`cleanedLoc`) is the cleaned location
+    inside `prepareMulti`; on the chunk the only difference is the lift of the restricted location before
+    `_calculate_frame_offset` (`chunkBranch`). -/
+theorem chunk_model_cleaned_location (c : CDS) (win : Option Blk) :
+    prepareMulti c win = (do
+      let cleaned ← Model.Chunk.cleanedLoc c
+      let rel ← (match windowTruthy win with
+        | some w => intersectWindow cleaned w
+        | none => pure (Location.compound cleaned))
+      let offset ← calculateFrameOffset c (.compound cleaned) rel
+      pure (rel, offset)) :=
+  chunk_cleanedLoc_is_prepareMulti c win
 
 /-! ### non-vacuity: concrete inputs satisfying the hypotheses -/
 
@@ -273,6 +390,20 @@ example : ∃ (L : List Blk) (off : Nat), prepare exampleCDS none = .ok (.compou
   have hwf : WFCDS exampleCDS := by constructor <;> simp [exampleCDS] <;> decide
   obtain ⟨L, off, h, _⟩ := prepared_cases exampleCDS hwf (by decide) (Or.inr (by decide))
   exact ⟨L, off, h⟩
+
+/-- a CDS read in one frame 0 (two exons of 3 and 6 bases) for `window_codons_with_expand`, window [2, 7) -/
+def plainTwoExonCDS : CDS :=
+  { loc := ⟨[(1, 4), (6, 12)], .plus⟩, start := 1, «end» := 12, frames := [.ZERO, .ZERO], seq := none }
+example : WFCDS plainTwoExonCDS := by constructor <;> simp [plainTwoExonCDS] <;> decide
+example : plainTwoExonCDS.start = locStartMin plainTwoExonCDS.loc ∧
+    plainTwoExonCDS.«end» = locEndMax plainTwoExonCDS.loc.blocks ∧
+    cdsKept plainTwoExonCDS.loc (specFrames plainTwoExonCDS) = bases plainTwoExonCDS.loc ∧
+    shallowTrim (exonWalk plainTwoExonCDS.loc (specFrames plainTwoExonCDS)) = true ∧
+    plainTwoExonCDS.loc.blocks.length > 1 ∧
+    (bases plainTwoExonCDS.loc).filter (inW 2 7) ≠ [] ∧
+    3 * ((((bases plainTwoExonCDS.loc).filter (beforeW plainTwoExonCDS.loc.strand 2 7)).length +
+        ((bases plainTwoExonCDS.loc).filter (inW 2 7)).length + 2) / 3) ≤ (bases plainTwoExonCDS.loc).length := by
+  decide
 
 /-- the example CDS with letters: every hypothesis of T2b / T3b holds -/
 def exampleSeqCDS : CDS := { exampleCDS with seq := some "ACGTNACGTAGCTAGCTRYAcgt".toList }
@@ -307,6 +438,21 @@ example : expectCodons (specOf oneExonCDS) (some ⟨some 4, some 10, false⟩) =
 example : okCodons (specOf oneExonCDS) (some ⟨some 4, some 10, false⟩)
     (ans (scanChromosomeCodonLocations oneExonCDS (some ⟨some 4, some 10, false⟩))) = false := by decide +kernel
 
+-- … while the same CDS meets every hypothesis of `window_codons_single_exon` for windows that do not cut the 5' end
+-- ([3, 10): d = 0) and for the 5'-cutting window [5, 12) (d = 2: 1 + ((−2) mod 3) = 2 < 3)
+example : WFCDS oneExonCDS ∧ oneExonCDS.loc.blocks = [(3, 30)] ∧ oneExonCDS.frames = [.ONE] := by
+  refine ⟨?_, rfl, rfl⟩
+  constructor <;> simp [oneExonCDS] <;> decide
+example : (bases oneExonCDS.loc).filter (inW 3 10) ≠ [] ∧
+    CDSFrame.ONE.value.toNat + (3 - ((bases oneExonCDS.loc).filter (beforeW .plus 3 10)).length % 3) % 3 < 3 := by
+  decide
+example : (bases oneExonCDS.loc).filter (inW 5 12) ≠ [] ∧
+    CDSFrame.ONE.value.toNat + (3 - ((bases oneExonCDS.loc).filter (beforeW .plus 5 12)).length % 3) % 3 < 3 := by
+  decide
+-- and the F-C05a window [4, 10) is exactly outside the guard (d = 1: 1 + 2 = 3)
+example : ¬ (CDSFrame.ONE.value.toNat +
+    (3 - ((bases oneExonCDS.loc).filter (beforeW .plus 4 10)).length % 3) % 3 < 3) := by decide
+
 /-- F-C05b: starts [2,8,9] ends [6,9,10] frames [0,1,0] + : the walk needs a deep trim; the modelled code refuses -/
 def deepTrimCDS : CDS :=
   { loc := ⟨[(2, 6), (8, 9), (9, 10)], .plus⟩, start := 2, «end» := 10, frames := [.ZERO, .ONE, .ZERO], seq := none }
@@ -339,6 +485,11 @@ def codonlessCDS : CDS :=
   { loc := ⟨[(0, 3)], .plus⟩, start := 0, «end» := 3, frames := [.TWO], seq := some "ACGTACGT".toList }
 example : ans (hasCanonicalStartCodon codonlessCDS) = some false := by decide +kernel
 example : ans (hasStartCodonIn codonlessCDS 11) = some false := by decide +kernel
+-- it satisfies the hypotheses of `codonless_cds_answers`
+example : WFCDS codonlessCDS ∧ SeqOK codonlessCDS "ACGTACGT".toList ∧
+    (cdsKept codonlessCDS.loc (specFrames codonlessCDS)).length < 3 := by
+  refine ⟨?_, ⟨rfl, by decide, by decide⟩, by decide⟩
+  constructor <;> simp [codonlessCDS] <;> decide
 
 /-- F-C05h: first block shorter than the start offset -/
 example : ans (constructFramesFromLocation (.compound ⟨[(0, 1), (7, 11)], .plus⟩) .TWO) = some [.TWO, .TWO] := by
